@@ -3,7 +3,7 @@ from __future__ import annotations
 
 from numba_scfg.core.datastructures.basic_block import SyntheticBranch
 
-from ..families import as_named
+from ..families import as_named, entry_name
 from ..hier import Hier
 from ..runner import Acc
 from ..sweep import graph_case, graph_spec, staged, sweep
@@ -43,7 +43,7 @@ def check_graph(g, fam, acc: Acc, opts):
                      case=graph_case(g, fam, stage, walker=kind, payload=payload, decisions=[list(p) for p in path]))
         static_tables(hier, report)
         for kind in ("name", "region"):
-            r = product(G, "0", hier, kind, max_violations=50)
+            r = product(G, entry_name(), hier, kind, max_violations=50)
             acc.states += r.states
             acc.transitions += r.transitions
             acc.counters["stale_nonlatch_reads(info)"] += r.info.get("stale_nonlatch_reads", 0)
